@@ -156,12 +156,27 @@ def r3_resume_agree(ctx, rule="C05.R3"):
     prog = ctx.prog
     one = ctx.anchor_method("Interpreter", "interpret_one")
     sw, regions = _arm_regions(prog, one, "::Instruction")
+    # the routine that consumes the recorded error address: found by what it does (Option::take of the field)
+    takers = []
+    for g in prog.fns.values():
+        if g.file != one.file or g.body is None or g.kind == "closure" or g.id == one.id:
+            continue
+        gpv = mir.Prov(g.body)
+        for _b, t in g.body.calls():
+            if mir.callee_path(t).endswith("Option::<T>::take") and t["args"]:
+                o = mir.strip_refs(gpv.of_operand(t["args"][0]))
+                if o[0] == "field" and o[2] == "last_error_address":
+                    takers.append(g)
+    if len(takers) != 1:
+        raise CheckError("%s: expected one routine that takes last_error_address, found %d" % (rule, len(takers)))
+    take = takers[0]
+    take_name = "::" + take.name
     for v in ("Resume", "ResumeNext", "ResumeLabel"):
         if v not in regions:
             raise CheckError("interpret_one has no arm for Instruction::%s" % v)
         # the arm, and a private helper of the same file that the arm calls (shared by the three arms)
         names = common.region_callee_paths_deep(prog, one.body, regions[v])
-        n_take = sum(1 for n in names if n.endswith("::take_last_error_address"))
+        n_take = sum(1 for n in names if n.endswith(take_name))
         n_pop = sum(1 for n in names if n.endswith("context::Context::pop"))
         ctx.decide(n_take == 1, rule, "%s:%s:clears-ERR" % (rule, v), one.loc,
                    "calls take_last_error_address once",
@@ -172,7 +187,6 @@ def r3_resume_agree(ctx, rule="C05.R3"):
                    "the %s arm calls Context::pop %d times: the handler context pushed on the "
                    "error edge is not (or doubly) removed" % (v, n_pop))
     # take_last_error_address clears last_error_code and takes last_error_address
-    take = ctx.anchor_method("Interpreter", "take_last_error_address")
     writes = common.field_writes(take.body)
     takes = [mir.callee_path(t) for _b, t in take.body.calls()]
     ctx.decide("last_error_code" in writes, rule, rule + ":take:clears-code", take.loc,
@@ -191,7 +205,7 @@ def r3_resume_agree(ctx, rule="C05.R3"):
     for v in prog.variants(sw.adt):
         tgt = sw.arms.get(v, sw.otherwise)
         region = mir.arm_region(interp.body, sw.bb, tgt)
-        names = _called_names(interp.body, region)
+        names = common.region_callee_paths_deep(prog, interp.body, region)
         n_push = sum(1 for n in names if n.endswith("::push_error_handler_context"))
         want = 1 if v == "Address" else 0
         ctx.decide(n_push == want, rule, "%s:error-edge:%s:push-context" % (rule, v), interp.loc,
@@ -199,7 +213,7 @@ def r3_resume_agree(ctx, rule="C05.R3"):
                    "ErrorHandler::%s edge pushes the handler context %d times (want %d): RESUME "
                    "pops exactly one" % (v, n_push, want))
         if v == "Address":
-            w = set(common.field_writes(interp.body, region))
+            w = set(common.field_writes(interp.body, region)) | _deep_field_writes(prog, interp, region)
             ipv = mir.Prov(interp.body)
             for _b, t in mir.region_calls(interp.body, region):
                 # Option::insert / replace overwrite unconditionally, like an assignment
